@@ -94,3 +94,51 @@ def lemma_no_cycle(reg, repo):
 
 
 LEMMAS["no_cycle"] = lemma_no_cycle
+
+
+# ----------------------------------------------------------------------------------------------------------------------
+# "the returned node is the root": the in-place transformations hand back the very object they were given.  Decided on
+# the AST of each function (like the frame obligations of C18): every `return` returns the name `tree`, `tree` is never
+# assigned, deleted or used as a loop target, there is no yield, and the function cannot fall off its end.  (That the
+# object is still the root afterwards - its parent stays None - is the business of the mover-step contracts: no step moves
+# the node it was given as the tree.)
+# ----------------------------------------------------------------------------------------------------------------------
+RETURNS_ARGUMENT = ["root_attach", "boyd_split", "raising", "substitute_terminals", "insert_terminals",
+                    "punctuation_delete", "punctuation_verylow", "punctuation_symetrify", "punctuation_root",
+                    "ptb_delete_traces", "negra_mark_heads", "mark_heads_by_rules", "binarize", "collapse_unary_chains"]
+
+
+def lemma_returns_argument(reg, repo):
+    import ast
+    import z3
+    from pyvc.sym import Unsupported
+    vcs = []
+    for name in RETURNS_ARGUMENT:
+        info = repo.fns.get("trees.transform." + name)
+        if info is None:
+            raise Unsupported("function trees.transform.%s no longer exists" % name)
+        f = info.node
+        if not f.args.args or f.args.args[0].arg != "tree":
+            raise Unsupported("trees.transform.%s no longer takes the tree as its first parameter `tree`" % name)
+        own = [n for n in ast.walk(f) if not isinstance(n, (ast.FunctionDef, ast.Lambda)) or n is f]
+        rebound = [n for n in ast.walk(f) if isinstance(n, ast.Name) and n.id == "tree"
+                   and isinstance(n.ctx, (ast.Store, ast.Del))]
+        rets = [n for n in ast.walk(f) if isinstance(n, ast.Return)]
+        bad_rets = [n for n in rets if not (isinstance(n.value, ast.Name) and n.value.id == "tree")]
+        yields = [n for n in ast.walk(f) if isinstance(n, (ast.Yield, ast.YieldFrom))]
+        nested = [n for n in ast.walk(f) if isinstance(n, (ast.FunctionDef, ast.Lambda)) and n is not f
+                  and any(isinstance(m, ast.Return) for m in ast.walk(n))]
+        ends_in_return = isinstance(f.body[-1], ast.Return)
+        ok = not rebound and not bad_rets and not yields and not nested and ends_in_return and bool(rets)
+        if not ok:
+            # not a violation: the syntactic argument no longer applies (e.g. `result = tree; return result` is fine);
+            # the obligation is then undecided and the bounded stand-in decides
+            raise Unsupported("trees.transform.%s: it is no longer syntactically evident that the function returns its "
+                              "argument `tree` (rebinding, another return expression, a yield or a missing final return)"
+                              % name)
+        vcs.append(("%s.returns_the_object_it_was_given" % name, [], z3.BoolVal(True)))
+    return vcs
+
+
+lemma_returns_argument.target = "trees.transform.punctuation_delete"
+LEMMAS["returns_argument"] = lemma_returns_argument
